@@ -55,7 +55,8 @@ class Gen:
     def __init__(self, rng, profile="py", tag_calls=False, max_ops=12, nphases=None, allow_end=True,
                  weird_names=True, persistent_arrays=True, multi_result=True, persist_tag="",
                  readonly_state=(), advance_time=True, phase_plan=None, components=None, funcs=None,
-                 ifexpr=True, call_bias=0.0, counters=None, extra_locals=(), containers=False, lookups=False):
+                 ifexpr=True, call_bias=0.0, counters=None, extra_locals=(), containers=False, lookups=False, shadow_funcs=False):
+        self.shadow_funcs = shadow_funcs
         self.containers = containers
         self.lookups = lookups
         self.ifexpr = ifexpr
@@ -269,6 +270,10 @@ class Gen:
             return rng.choice(cands)
         base = rng.choice(["f", "g", "rhs", "h^", "F"]) if self.weird_names else rng.choice(["f", "g", "rhs"])
         name = "<func>" + base
+        if self.shadow_funcs and rng.random() < 0.6:
+            # a user function registered under a plain name that the method also uses for a variable
+            # ('limit <- limit(y)'): variables and functions live in separate namespaces
+            name = rng.choice(LOCAL_NAMES[:12])
         while name in self.funcs:
             name += str(len(self.funcs))
         if kind == "scalar":
